@@ -328,6 +328,10 @@ impl TerminalHistory {
                 Self::report_error("Failed to read from file");
                 break;
             };
+            // A blank line is never a command (and never stored): do not offer one for recall
+            if line.trim().is_empty() {
+                continue;
+            }
             history.push(line);
         }
         history
